@@ -118,11 +118,9 @@ theorem Abs.row_eq_succ {s : State} {R : List Row} {g : SG} (good : Good s R) (a
   · simp [hb, abs.look]
   · simp only [hb, if_false]; exact good.ok.look_oob a b (by omega)
 
-theorem slice_empty {α : Type} (l : List α) : slice l (l.length, l.length) = some [] := by
-  simp [slice]
-
 /-- `neighbors_slice`, `edges_slice`, `out_degree`, `contains_edge`, `edge_count`, `Index` all answer
-what the abstract graph says; at `a = node_count` the readers answer "empty", beyond that they panic. -/
+what the abstract graph says; for every `a ≥ node_count` (a node that does not exist) they panic, as documented
+(since /repo commit aadb875, the repair of D32; before it `a = node_count` answered "empty"). -/
 theorem readers {s : State} {R : List Row} {g : SG} (good : Good s R) (abs : Abs s R g) (a : Nat) :
     (a < g.n →
       neighborsSlice s a = some ((g.succ a).map (·.1)) ∧
@@ -130,13 +128,11 @@ theorem readers {s : State} {R : List Row} {g : SG} (good : Good s R) (abs : Abs
       outDegree s a = some (g.succ a).length ∧
       (∀ b, containsEdge s a b = some (g.has a b)) ∧
       index s a = g.nodes[a]?) ∧
-    (a = g.n → neighborsSlice s a = some [] ∧ edgesSlice s a = some [] ∧ outDegree s a = some 0 ∧
-      ∀ b, containsEdge s a b = some false) ∧
-    (g.n < a → neighborsSlice s a = none ∧ edgesSlice s a = none ∧ outDegree s a = none ∧
-      ∀ b, containsEdge s a b = none) ∧
+    (g.n ≤ a → neighborsSlice s a = none ∧ edgesSlice s a = none ∧ outDegree s a = none ∧
+      (∀ b, containsEdge s a b = none) ∧ (∀ b, findEdgePos s a b = none)) ∧
     s.edgeCountQ = g.edgeCount ∧ s.nodeCount = g.n := by
   have hn := Abs.n good abs
-  refine ⟨?_, ?_, ?_, abs.count, by rw [good.rep.nodeCount, hn]⟩
+  refine ⟨?_, ?_, abs.count, by rw [good.rep.nodeCount, hn]⟩
   · intro ha
     rw [hn] at ha
     have hrow := Abs.row_eq_succ good abs a ha
@@ -162,24 +158,13 @@ theorem readers {s : State} {R : List Row} {g : SG} (good : Good s R) (abs : Abs
         rw [(lookupRow_none_iff b R[a]).mpr hb]; rfl
     · simp [index, abs.nodes]
   · intro ha
-    rw [hn] at ha; subst ha
-    have hr := good.rep.range_eq
-    have hcl := good.rep.column_length
-    have hel := good.rep.edges_length
-    refine ⟨?_, ?_, ?_, ?_⟩
-    · simp only [neighborsSlice, neighborsOf, hr, ← hcl, slice_empty, Option.map_some]
-    · simp only [edgesSlice, hr, ← hel, slice_empty]
-    · simp [outDegree, hr]
-    · intro b
-      simp only [containsEdge, findEdgePos, neighborsOf, hr, ← hcl, slice_empty, Option.map_some]
-      simp [searchPos, linearPos, binaryPos, Pos.shift, Pos.isFound]
-  · intro ha
     rw [hn] at ha
-    have hr := good.rep.range_gt a ha
-    refine ⟨?_, ?_, ?_, ?_⟩
+    have hr := good.rep.range_ge a ha
+    refine ⟨?_, ?_, ?_, ?_, ?_⟩
     · simp [neighborsSlice, neighborsOf, hr]
     · simp [edgesSlice, hr]
     · simp [outDegree, hr]
     · intro b; simp [containsEdge, findEdgePos, neighborsOf, hr]
+    · intro b; simp [findEdgePos, neighborsOf, hr]
 
 end PetgraphModel.CsrProofs
